@@ -39,6 +39,8 @@ Verdicts(e) ==
                 c \in When(~C14_ContentAddressed(o), "C14_ContentAddressed")
                  \cup When(~C14_TooSmallRejected(o), "C14_TooSmallRejected")
                  \cup When(~C14_Encryptable(o), "C14_RoundTrip")
+                 \* the chunks handed out by encrypt suffice to read the input back (reference reader of the driver)
+                 \cup When(e.res = "ok" /\ "refok" \in DOMAIN e /\ ~e.refok, "C14_RoundTrip")
                  \cup When(\E x \in first : ~C14_Deterministic(x.o, o), "C14_Deterministic")}
             \cup (IF C14_ChunkBound(o) THEN {}
                   ELSE {[clause |-> "C14_ChunkBound",
